@@ -20,7 +20,8 @@ DESTRUCTIVE = {'FS_REMOVE': [0], 'FS_RENAME': [0, 1], 'FS_CREATE': [0], 'FS_OPEN
 ALLOWED_SOURCES = re.compile(r'FileSpec::as_pathbuf$|list_and_cleanup::list_of_log_and_compressed_files$|FileSpec::filter_files$|FileSpec::list_of_files$|'
                              r'timestamps::path_for_rotated_file_from_timestamp$|list_and_cleanup::existing_log_files$')
 FORBIDDEN_SOURCES = re.compile(r'read_dir_related_files$|^std::fs::read_dir$|DirEntry::path$')
-OWNERS = re.compile(r'^src/writers/file_log_writer/state(\.rs|/numbers\.rs|/timestamps\.rs|/list_and_cleanup\.rs)$')
+# the state module and every (also new) sub-module file below it
+OWNERS = re.compile(r'^src/writers/file_log_writer/state(\.rs$|/)')
 OWNER_EXCEPTIONS = {('src/util.rs', 'FS_OPEN'): 'error-channel file, create+append only', ('src/logger.rs', 'FS_OPEN'): 'specfile, create_new only',
                     ('src/logger.rs', 'FS_MKDIR'): 'parent folder of the specfile'}
 
